@@ -2,25 +2,27 @@
 
 PID = "C04"
 CLAIM = True
-MANIFEST_TEXT = ("Lean 4 theorems, for every process count P>=1, every decomposition with at most one entry per global index "
-                 "and set, one or two index sets per rank (also mixed), ignorePublic and includeSelf arbitrary: the message-level "
-                 "model of RemoteIndices::rebuild (merge-join unpackIndices with rewind and fromOurSelf rule, the four "
-                 "unpackCreateRemote cases, ring rounds or hinted neighbours in any arrival order) yields on rank p for every "
-                 "other rank q exactly send = published(src_p) joined with published(tgt_q) and receive = published(tgt_p) joined "
-                 "with published(src_q), carrying q's attribute and p's own pair, ordered by global index, no empty neighbour, "
-                 "self entries only in the documented cases, independent of the arrival order, identical for ring and consistent "
-                 "hints; isSynced holds exactly when no referenced index set was resized since the rebuild.  The model is run "
-                 "against the real class under mpirun -np 1..4 (quick) / 1..8 (thorough) on random distributed histories "
-                 "(resizes, rebuilds with both ignorePublic values, isSynced queries) with PMPI-permuted probe order; the "
-                 "harness oracle recomputes the set definition from the decomposition.")
+MANIFEST_TEXT = ("Lean 4 theorems about a message-level model of RemoteIndices::rebuild (merge-join unpackIndices with rewind and "
+                 "fromOurSelf rule, two-list unpackIndices, the four unpackCreateRemote cases, self message, ring rounds or hinted "
+                 "neighbours in any arrival order, sequence-number bookkeeping), for every process count P>=1, every decomposition "
+                 "with at most one entry per global index and set, one or two index sets per rank (also mixed), ignorePublic and "
+                 "includeSelf arbitrary: rank p holds for every other rank q exactly send = published(src_p) joined with "
+                 "published(tgt_q) and receive = published(tgt_p) joined with published(src_q), carrying q's attribute and p's own "
+                 "pair (rebuild_spec), lists and ranks strictly ascending (rebuild_sorted), no empty neighbour, self entries only "
+                 "in the documented cases (self_entry_cases), result independent of the arrival order and equal to the ring result "
+                 "for covering hints; isSynced exactly while no referenced index set was resized (synced_iff).  Tier B: the merge-join "
+                 "with repeated global indices (unpack_spec) and one-set systems with repeated globals incl. the includeSelf self "
+                 "entry (rebuild_spec_repeated).  The model is run against the real class under mpirun -np 1..4 (quick) / 1..8 "
+                 "(thorough) on random distributed histories (resizes, deletes, rebuilds with both ignorePublic values, isSynced "
+                 "queries) with PMPI-permuted probe order; the harness oracle recomputes the set definition from the decomposition.")
 MANIFEST_NOTE = ("Trusted: Lean kernel (+propext/Classical.choice/Quot.sound), the hand-written model's fidelity (differential "
-                 "runs only, bounded: P<=8, <=14 globals), harness oracle, g++/ASan/UBSan, OpenMPI (reliable, pairwise FIFO; "
-                 "MPI_Pack layout exercised, not modelled).  Theorems assume every global index at most once per index set "
-                 "(repeated globals with different attributes: general merge-join theorem unpack_spec proved for sorted inputs, "
-                 "system-level claims for them rest on the differential runs); hints symmetric, non-empty on every rank or "
-                 "absent on every rank (anything else deadlocks in MPI and is not generated); all ranks take part in every "
-                 "rebuild; int overflow of seqNo not modelled.  With two index sets and includeSelf=true the code drops "
-                 "equal-attribute pairs from the self entry; the oracle accepts both readings, the model states the code's.")
+                 "runs only, bounded: P<=8, <=14 globals per case), harness oracle, g++/ASan/UBSan, OpenMPI (reliable, pairwise "
+                 "FIFO; MPI_Pack layout exercised, not modelled).  Hypotheses: hints symmetric and naming another rank on every "
+                 "rank, or absent on every rank (anything else deadlocks in MPI and is not generated); all ranks take part in "
+                 "every rebuild; int overflow of seqNo not modelled; two-set systems assume no repeated globals (the two-list "
+                 "unpackIndices has no rewind).  With two index sets and includeSelf=true the code drops equal-attribute pairs "
+                 "from the self entry; the oracle accepts both readings, the model and self_entry_cases state the code's.  "
+                 "Describes the tree with fixes/C04_localdest_index.patch and fixes/C04_oneset_receives_twoset.patch applied.")
 TECHNIQUE = "Lean 4 proof over a message-level protocol model + differential correspondence under MPI with PMPI schedule steering and a set-theoretic oracle"
 TRANSLATORS = []
 HARNESS = dict(
@@ -48,18 +50,19 @@ TRUSTED = ["g++/libstdc++, ASan/UBSan, OpenMPI", "harness/mpi_c04.cc (generator,
 def batches(tier, seed):
     res = []
     if tier == "quick":
-        plan = [(1, 250), (2, 350), (3, 350), (4, 350)]
+        plan = [(1, 400), (2, 700), (3, 700), (4, 700)]
         for (np, n) in plan:
-            res.append(dict(args=["--seed", str(seed * 1000 + np), "--cases", str(n), "--tier", tier], np=np,
-                            tag="np%d" % np, timeout=900))
+            res.append(dict(args=["--seed", str(seed * 1000 + np), "--cases", str(n), "--tier", tier, "--case-timeout", "60"],
+                            np=np, tag="np%d" % np, timeout=900))
         # one batch with the PMPI scheduler switched off (plain MPI order)
-        res.append(dict(args=["--seed", str(seed * 1000 + 77), "--cases", "150", "--tier", tier, "--sched", "0"], np=3,
+        res.append(dict(args=["--seed", str(seed * 1000 + 77), "--cases", "300", "--tier", tier, "--sched", "0",
+                              "--case-timeout", "60"], np=3,
                         tag="np3_nosched", timeout=900))
     else:
         plan = [(1, 2000), (2, 4000), (3, 4000), (4, 4000), (5, 800), (6, 600), (7, 200), (8, 200)]
         for (np, n) in plan:
-            res.append(dict(args=["--seed", str(seed * 1000 + 100 + np), "--cases", str(n), "--tier", tier], np=np,
-                            tag="np%d" % np, timeout=3000))
+            res.append(dict(args=["--seed", str(seed * 1000 + 100 + np), "--cases", str(n), "--tier", tier, "--case-timeout", "90"],
+                            np=np, tag="np%d" % np, timeout=3000))
         res.append(dict(args=["--seed", str(seed * 1000 + 177), "--cases", "1000", "--tier", tier, "--sched", "0"], np=4,
                         tag="np4_nosched", timeout=3000))
     return res
